@@ -556,6 +556,11 @@ def c10_container_case(res, case):
         "dict_values": ({"a": A_(2), "b": (A_(2), A_(2))}, lambda d: ab.dict({"p": d["b"][0:2], "q": ab.tuple((d["a"], d["b"][1:])), "r": d["b"][::-1]})),
         "index_and_slice": (t0, lambda t: ab.tuple((t[1], t[0:2], t[1] * 2.0, t[1:2]))),
         "concat_then_slice": (t0, lambda t: ab.tuple(((t + t)[2:6], t[0:2]))),
+        # a container value used whole first (its cotangent is the caller's object) and indexed afterwards
+        "whole_then_index": (t0, lambda t: ab.tuple((t, t[1] * 2.0, t[0:2]))),
+        "whole_then_index_list": ([A_(2), A_(2), A_(2)], lambda t: ab.list([t, t[0], t[2] * 3.0])),
+        "whole_then_key_dict": ({"a": A_(2), "b": A_(3)}, lambda d: ab.tuple((d, d["a"] * 2.0, d["b"]))),
+        "inner_whole_then_index": (t0, lambda t: (lambda u: ab.tuple((u, u[0] * 2.0, u[1])))(ab.tuple((t[0] * 1.5, t[1], t[3])))),
     }
     x0, f = progs[tmpl]
     sig = {"engine": "graph", "family": "c10_container", "tmpl": tmpl}
@@ -611,7 +616,7 @@ def c10_container_case(res, case):
     _ok(res, dict(sig, seed=case["seed"][1] % 7))
 
 
-C10_TEMPLATES = ["overlapping_slices", "slice_twice", "reverse_and_tail", "slice_of_slice", "list_slices", "dict_values", "index_and_slice", "concat_then_slice"]
+C10_TEMPLATES = ["overlapping_slices", "slice_twice", "reverse_and_tail", "slice_of_slice", "list_slices", "dict_values", "index_and_slice", "concat_then_slice", "whole_then_index", "whole_then_index_list", "whole_then_key_dict", "inner_whole_then_index"]
 
 
 def c10_catalogue_repeat(res, c, rng):
@@ -638,6 +643,9 @@ def c10_catalogue_repeat(res, c, rng):
                 try:
                     vjp, _ = make_vjp(acall, x0)
                     g1, g2 = common.rand_like(rng, y0), common.rand_like(rng, y0)
+                    # a scalar output accepts a 0-d ndarray cotangent as well (it is what grad() passes):
+                    # unlike a NumPy scalar it is mutable
+                    g1 = common.tree_map(lambda l: onp.array(l) if isinstance(l, (onp.generic, float, complex)) else l, g1)
                     for a in common.leaves([g1, g2]):
                         if isinstance(a, onp.ndarray):
                             a.flags.writeable = False
